@@ -56,6 +56,11 @@ type duplexHTTPCall struct {
 
 	errMu sync.Mutex
 	err   error
+
+	// responseEnded is set once a read of the response body has reported its
+	// end (io.EOF with no data): from then on the HTTP trailers are in. Guarded
+	// by errMu.
+	responseEnded bool
 }
 
 func newDuplexHTTPCall(
@@ -178,6 +183,11 @@ func (d *duplexHTTPCall) Read(data []byte) (int, error) {
 	}
 	verifYield("read.body")
 	n, err := d.response.Body.Read(data)
+	if n == 0 && errors.Is(err, io.EOF) {
+		d.errMu.Lock()
+		d.responseEnded = true
+		d.errMu.Unlock()
+	}
 	verifYield("read.done")
 	if err != nil && !errors.Is(err, io.EOF) {
 		// If the call has already failed - for example because its context ended
@@ -345,6 +355,14 @@ func (d *duplexHTTPCall) makeRequest() {
 			response.ProtoMinor,
 		))
 	}
+}
+
+// ResponseEnded reports whether a read of the response body has reported its
+// end.
+func (d *duplexHTTPCall) ResponseEnded() bool {
+	d.errMu.Lock()
+	defer d.errMu.Unlock()
+	return d.responseEnded
 }
 
 func (d *duplexHTTPCall) getError() error {
